@@ -118,6 +118,8 @@ def generate(G):
         ("lnexp", "LnExp", [L([2], "Pos"), L([2]), L([2])], "Explicit(Dom::D4)", "quick", 10, ("ln", "exp", "powf"), True),
         ("keepmid", "KeepMid", [L([2]), L([2])], "Explicit(Dom::D4)", "thorough", 6, (), False),
         ("detachmid", "DetachMid", [L([2]), L([2])], "Explicit(Dom::D4)", "quick", 6, (), False),
+        ("convsquare_b2", "ConvSquare", [L([2, 1, 2, 2], "D2"), L([1, 1, 2, 1], "D2")], "Explicit(Dom::D2)", "quick", 20, (), False),
+        ("muladdshare_start_tracking", "MulAddShare", [G.leaf_st([2]), L([2])], "Explicit(Dom::D4)", "thorough", 6, (), False),
         ("diamond_2x2", "Diamond", [L([2, 2], "D2"), L([2, 2], "D2")], "Explicit(Dom::D4)", "thorough", 8, (), False),
         ("fan3_3", "Fan3", [L([3]), L([3])], "Explicit(Dom::D4)", "thorough", 6, (), False),
         ("bcastshare_2x2x2_2x2", "BcastShare", [L([2, 2, 2], "D2"), L([2, 2], "D2")], "Explicit(Dom::D2)", "thorough", 12, (), False),
@@ -127,4 +129,4 @@ def generate(G):
     for id, prog, ls, seed, tier, unwind, stubs, inexact in cur:
         grad_ob("c01_cur_" + id, "programs::" + prog, ls, "Seed::" + seed, tier,
                 {"program": prog, "leaves": ls, "seed": seed, "inexact_tolerance": inexact}, unwind, stubs, inexact,
-                family="curated")
+                family="curated", heavy=any(x in id for x in ("bcast", "reshapemix", "matmulshare", "convsquare", "2x2", "chain5", "fan3")))
